@@ -82,6 +82,9 @@ def run(F, chk):
             nm = c.rsplit("::", 1)[-1]
             if nm in t2.MUTATING or nm.startswith("domain_") or nm in ("insert", "remove"):
                 touched.setdefault(b.root, set()).add(fld)
+    touched, folded = lib.fold_private_writers(F, touched, lambda fn: fn.startswith(CR + "::") and fn.split("::")[-1] in ALLOWED)
+    for h, cs in sorted(folded.items()):
+        rb.info("%s|private helper" % h, F.body(h).where(), "examined as part of %s" % cs)
     for fn, flds in sorted(touched.items()):
         rb.fn(fn)
         key = "%s|mutates %s" % (fn, ",".join(sorted(flds)))
